@@ -2,10 +2,11 @@
 
 Domain   generated worlds with 0-4 prior generations, flat and nested (so that crashes fall between a child's commit and
          its parent's), then one `create` (folder mode or -sf) that is killed.  The interposed file-system layer
-         (fsmon.CrashFS) turns the run into a sequence of operations - mkdir, open (create/truncate), each write
-         (issued unbuffered), flush, close, rename/replace, remove - and ALL crash points of the run are enumerated:
-         before every operation (= after the previous one) and, for writes, with only the first half of the bytes
-         applied.  At the crash point a BaseException is raised and every later mutation is refused, so the disk is
+         (fsmon.CrashFS) turns the run into a sequence of operations - mkdir, open (create/truncate), flush (the
+         moment buffered bytes reach the disk: explicit flush, close, or a full 8 KiB buffer - write() alone only fills
+         the user-space buffer, which a kill discards), close, rename/replace, remove - and ALL crash points of the
+         run are enumerated: before every operation (= after the previous one) and, for flushes, with only the
+         first half of the bytes applied.  At the crash point a BaseException is raised and every later mutation is refused, so the disk is
          what kill -9 would leave if completed operations are durable and a file holds a prefix of what was written.
          A second variant delivers KeyboardInterrupt at the same points and lets the tool's own clean-up code run
          (Ctrl-C / SIGTERM), so that a well-meant rollback handler is exercised as well.
@@ -129,11 +130,10 @@ def run_case(scn, ctx):
         ops = fs.ops
         points = []
         for k, (kind, path, n) in enumerate(ops):
-            if kind in ("mkdir", "open", "write", "rename", "replace", "remove", "unlink"):
+            if kind in ("mkdir", "open", "flush", "close", "rename", "replace", "remove", "unlink"):
                 points.append((k, "before"))
-                if kind != "write" or k % 3 == 0:
-                    points.append((k, "interrupt"))
-            if kind == "write" and n >= 2:
+                points.append((k, "interrupt"))
+            if kind == "flush" and n >= 2:
                 points.append((k, "half"))
         points.append((len(ops), "before"))  # nothing left to do: the complete run
         new_roots = [h for h in w.history_roots() if h not in prior_roots]
